@@ -66,4 +66,14 @@ def eventLog (h : Json → Str) (base : List (Str × GVal)) (msg : List (Str × 
 def writeEvent (h : Json → Str) (base : List (Str × GVal)) (msg : List (Str × Json)) : Str :=
   orjsonDumps (eventLog h base msg)
 
+/-- `write_event` for a text message (l.115-120): the URL rule (the expression of `format()`, another
+replacement), then the message is stored as it is. -/
+def eventTextLog (base : List (Str × GVal)) (msg : Str) : List (Str × GVal) :=
+  let m := if isInfix Gen.Sanitise.gUrlGuard msg then redactUrlWith Gen.Sanitise.gUrlReplacement msg else msg
+  dictSet base ['m', 'e', 's', 's', 'a', 'g', 'e'] (.text m)
+
+/-- The line `write_event` prints and returns for a text message. -/
+def writeEventText (base : List (Str × GVal)) (msg : Str) : Str :=
+  orjsonDumps (eventTextLog base msg)
+
 end Sanitise
